@@ -20,7 +20,7 @@ RULE = (
 )
 ASSUMPTIONS = ["class comparison bounded by N=6 (quick) / 7 (thorough, classical)", "oracle: vf/oracle/mesh.py region semantics for mesh-in-mesh containment"]
 REQUIRED = ["calls.Basis.__new__", "calls.MeshBasis.__new__", "pruned.classical", "pruned.mesh", "mixed.subclasses", "orders.compared",
-            "from_string.checked", "av_identity.checked", "identity_history.checked", "collections.two_monotone_plus_avoiders", "collections.big_antichains"]
+            "from_string.checked", "av_identity.checked", "identity_history.checked", "collections.two_monotone_plus_avoiders", "collections.big_antichains", "twins.rebuilt_collections", "subclass_identity.checked"]
 MIN_NONTRIVIAL = 100
 CTX = None
 MON = None
@@ -121,6 +121,28 @@ def chk_collection(ctx, raw_enc, norders):
                     report(f"from_iterable / repeated arguments give a different basis than {b!r}", known)
             elif not (b == ref and ref == b and hash(b) == hash(ref) and tuple(b) == tuple(ref)):
                 report(f"order dependence: {ref!r} vs {b!r} for argument order {order}", known)
+        if ref is not None and mesh:
+            # the same collection as SEPARATELY BUILT equal objects whose shaded cells were listed in other orders
+            for how in ("reversed", "shuffled"):
+                twins = []
+                for q in patts:
+                    if type(q) is MeshPatt:
+                        cells = sorted(q.shading)
+                        cells = cells[::-1] if how == "reversed" else ctx.rng.sample(cells, len(cells))
+                        twins.append(MeshPatt(Perm(tuple(q.pattern)), cells))
+                    else:
+                        twins.append(dec(enc(q)))
+                try:
+                    b2 = cls(*twins)
+                except Exception as exc:
+                    report(f"{cls.__name__} of separately built equal patterns raised {exc!r}", known)
+                    continue
+                ctx.ev()
+                ctx.count("twins.rebuilt_collections")
+                if not (b2 == ref and hash(b2) == hash(ref) and tuple(b2) == tuple(ref)):
+                    report(f"equal patterns built with their shaded cells listed in another order give another basis: {b2!r} vs {ref!r}", known)
+                elif len(ref) and Av(b2) is not Av(ref):
+                    report("equal bases of separately built patterns denote different class objects", known)
         if ref is not None and len(ref) and not (len(ref) == 1 and len(ref[0]) == 0 and not mesh):
             # equal bases denote the same class object; Av(raw) has that basis
             try:
@@ -143,6 +165,28 @@ def chk_collection(ctx, raw_enc, norders):
             ctx.nt(tuple(sorted(map(repr, raw))))
     finally:
         CASE[0] = None
+
+
+class SubAv(Av):
+    """a user subclass of the class of classes (no change of behaviour)"""
+
+
+def chk_subclass_identity(ctx, raw_enc):
+    """equal bases denote ONE object also when asked for through a user subclass, before and after that subclass's clear_cache"""
+    patts = [dec(q) for q in raw_enc]
+    if not patts or all(len(q) == 0 for q in patts):
+        return
+    for phase in ("before", "after"):
+        mesh = any(isinstance(q, MeshPatt) for q in patts)
+        basis = (MeshBasis if mesh else Basis)(*patts)
+        objs = [SubAv(basis), SubAv(list(patts)), SubAv(tuple(reversed(patts))), SubAv.from_iterable(iter(patts))]
+        if not mesh and all(0 < len(q) <= 9 for q in patts):
+            objs.append(SubAv.from_string("_".join("".join(str(v) for v in q) for q in patts)))
+        ctx.ev()
+        ctx.count("subclass_identity.checked")
+        if any(o is not objs[0] for o in objs) or objs[0].basis != basis:
+            report(f"through a subclass of Av ({phase} its clear_cache) equal bases give {len({id(o) for o in objs})} different class objects")
+        SubAv.clear_cache()
 
 
 def chk_from_string(ctx, perms, seps):
@@ -188,7 +232,7 @@ def chk_identity_history(ctx, raw_enc, nothers):
         CASE[0] = None
 
 
-CHECKS = {"collection": chk_collection, "from_string": chk_from_string, "identity": chk_identity_history}
+CHECKS = {"subclass_identity": chk_subclass_identity, "collection": chk_collection, "from_string": chk_from_string, "identity": chk_identity_history}
 
 
 def rand_patt(rng, kmax=2):
@@ -282,4 +326,6 @@ def run(ctx, spec):
                 ctx.count("k5_inputs")
             rng.shuffle(col)
             chk_collection(ctx, col, 24 if len(col) <= 4 else 12)
+            if rng.random() < 0.1:
+                chk_subclass_identity(ctx, col)
         ctx.sample({"collection": col})
